@@ -24,6 +24,27 @@ pub struct VehicleCfg {
     /// the application is built - the model is then first asked for a prediction by a query
     #[serde(default)]
     pub ideal_rate_configured: bool,
+    /// the speed and grade units the vehicle's prediction model is declared to take its inputs in
+    /// (None: miles_per_hour / decimal, as before round 6). A vehicle of its own: two vehicles may share one
+    /// model file and model type and still declare different units
+    #[serde(default)]
+    pub model_units: Option<(String, String)>,
+}
+
+/// upper bounds of the interpolation grid in the declared units (the grid spans 0..speed, -grade..grade)
+pub fn interpolation_bounds(speed_unit: &str, grade_unit: &str) -> (f64, f64) {
+    (
+        match speed_unit {
+            "kilometers_per_hour" => 160.0,
+            "meters_per_second" => 45.0,
+            _ => 100.0,
+        },
+        match grade_unit {
+            "percent" => 20.0,
+            "millis" => 200.0,
+            _ => 0.2,
+        },
+    )
 }
 
 #[derive(Clone, Debug, Serialize, Deserialize)]
@@ -583,12 +604,14 @@ impl World {
                 let vs: Vec<Value> = vehicles
                     .iter()
                     .map(|v| {
+                        let (m_speed, m_grade) = v.model_units.clone().unwrap_or(("miles_per_hour".into(), "decimal".into()));
+                        let (s_hi, g_hi) = interpolation_bounds(&m_speed, &m_grade);
                         let model_type = |_m: &str| -> Value {
                             if v.interpolate {
                                 json!({"interpolate": {
                                     "underlying_model_type": "smartcore",
-                                    "speed_lower_bound": 0, "speed_upper_bound": 100, "speed_bins": 21,
-                                    "grade_lower_bound": -0.2, "grade_upper_bound": 0.2, "grade_bins": 9 }})
+                                    "speed_lower_bound": 0, "speed_upper_bound": s_hi, "speed_bins": 21,
+                                    "grade_lower_bound": -g_hi, "grade_upper_bound": g_hi, "grade_bins": 9 }})
                             } else {
                                 json!("smartcore")
                             }
@@ -598,8 +621,8 @@ impl World {
                                 "name": name,
                                 "model_input_file": model,
                                 "model_type": model_type(model),
-                                "speed_unit": "miles_per_hour",
-                                "grade_unit": "decimal",
+                                "speed_unit": m_speed,
+                                "grade_unit": m_grade,
                                 "energy_rate_unit": rate_unit,
                             });
                             if let Some(a) = v.adjustment {
